@@ -64,6 +64,8 @@ def strategy(draw):
         "sd": draw(st.sampled_from([0.0, 0.0, 0.05, 0.3])),
         "amp": 0.0 if semantic else draw(st.sampled_from([0.0, 0.2, 0.2])) if given is None else draw(st.sampled_from([0.0, 0.2, 1.5])),
         "anti": draw(st.sampled_from(["none", "full", "full", "empty"])),
+        # a panel without sex-chromosome targets: sexes can then only be inferred from the antitarget files
+        "t_sex": draw(st.integers(0, 3)) > 0,
         "null_frac": draw(st.sampled_from([0.0, 0.0, 0.05, 0.3] if (given is not None and not semantic) else [0.0, 0.0, 0.05])),
         "female_y": draw(st.sampled_from(["null", "low"])),
         "shuffle": draw(st.booleans()), "fasta": semantic and draw(st.booleans()),
@@ -87,8 +89,10 @@ def bins_of(case):
         bare = c[3:] if c.startswith("chr") else c
         n = case["nx"] if bare == "X" else case["ny"] if bare == "Y" else case["per_auto"]
         pos = 3_000_000
+        no_t = bare in ("X", "Y") and not case.get("t_sex", True) and case["anti"] == "full"
         for i in range(n):
-            t.append((c, pos, pos + 150, "G%s_%d" % (bare, i // 3)))
+            if not no_t:
+                t.append((c, pos, pos + 150, "G%s_%d" % (bare, i // 3)))
             a.append((c, pos + 400, pos + 5400, "Antitarget"))
             pos += 6000
     return t, a
@@ -243,6 +247,8 @@ def classify(case):
         labs.append("depth-only")
     if case["null_frac"]:
         labs.append("null-bins")
+    if not case.get("t_sex", True) and case["anti"] == "full":
+        labs.append("no-sex-chromosome-targets")
     return labs
 
 
